@@ -90,12 +90,55 @@ func c13Composed(rt *rapid.T, l string) string {
 	return base("a") + ", " + base("b") + shape
 }
 
+// c13Confusable: a good name with one character swapped for (or joined by) a rune outside
+// ASCII - letters that case folding maps onto ASCII letters (U+017F long s, U+212A Kelvin sign,
+// dotless and dotted I), look-alike letters and digits of other scripts, fullwidth forms,
+// combining marks, invisible format characters, invalid UTF-8. The safe grammar is ASCII only;
+// a validator built from character classes, case-insensitive matching or unicode.IsLetter may not be.
+var c13OddRunes = []string{"\u017f", "\u212a", "\u0131", "\u0130", "\u00e9", "\u00df", "\u0430", "\u0455", "\u03bf", "\uff41", "\uff11", "\u0663", "\u0301", "\u200d", "\u200b", "\u00a0", "\u00ad", "\u202e", "\ufeff", "\x7f", "\x80", "\xc3", "\u2028"}
+
+func c13Confusable(rt *rapid.T, l string, bases []string) string {
+	base := bases[lang.Spread(rt, l+"cb", len(bases))]
+	odd := c13OddRunes[lang.Spread(rt, l+"co", len(c13OddRunes))]
+	rs := []rune(base)
+	if len(rs) == 0 {
+		return odd
+	}
+	// prefer the position of an s / k / i, which is where a folded look-alike reads as the same word
+	pos := lang.Spread(rt, l+"cp", len(rs))
+	for i, r := range rs {
+		if (r == 's' || r == 'S') && odd == "\u017f" || (r == 'k' || r == 'K') && odd == "\u212a" || (r == 'i' || r == 'I') && (odd == "\u0131" || odd == "\u0130") {
+			pos = i
+		}
+	}
+	switch lang.Spread(rt, l+"ck", 3) {
+	case 0:
+		return string(rs[:pos]) + odd + string(rs[pos+1:])
+	case 1:
+		return string(rs[:pos]) + odd + string(rs[pos:])
+	}
+	return base + odd
+}
+
+var c13ConfBases = []string{"users", "kind", "id", "name", "items", "t1", "sku", "is_ok"}
+var c13ConfTypes = []string{"SMALLINT", "TEXT", "BIGINT", "INTEGER", "VARCHAR(10)", "TIMESTAMP", "DECIMAL(10, 2)"}
+
+func c13Type(rt *rapid.T) string {
+	if lang.Spread(rt, "tyconf", 100) < 8 {
+		return c13Confusable(rt, "ty", c13ConfTypes)
+	}
+	return c13Pick(rt, "ty", c13GoodTypes, c13BadTypes, 25)
+}
+
 func genC13(rt *rapid.T) c13Case {
 	ops := []string{"qb", "qb", "qb", "create", "update", "delete", "count", "findbyid", "bulk", "bulk", "createtable", "createtable", "droptable", "tableexists", "lastid", "sanitize"}
 	c := c13Case{Op: ops[lang.Spread(rt, "op", len(ops))], Dialect: []string{"sqlite", "sqlite", "postgres", "mysql"}[lang.Spread(rt, "dialect", 4)]}
 	ident := func(l string) string {
 		if lang.Spread(rt, l+"composed", 100) < 6 {
 			return c13Composed(rt, l)
+		}
+		if lang.Spread(rt, l+"confusable", 100) < 7 {
+			return c13Confusable(rt, l, c13ConfBases)
 		}
 		return c13Pick(rt, l, c13GoodIdents, c13BadIdents, 12)
 	}
@@ -149,7 +192,7 @@ func genC13(rt *rapid.T) c13Case {
 	case "createtable":
 		c.Schema = map[string]string{}
 		for i, n := 0, 1+lang.Spread(rt, "nsc", 3); i < n; i++ {
-			c.Schema[ident("scol")] = c13Pick(rt, "ty", c13GoodTypes, c13BadTypes, 25)
+			c.Schema[ident("scol")] = c13Type(rt)
 		}
 	case "lastid":
 		c.Cols = []string{ident("idcol")}
